@@ -61,6 +61,24 @@ impl<L> std::hash::Hash for K<L> {
 
 pub const SIZES: [usize; 5] = [0, 1, 2, 7, 33];
 
+/// a user trait whose trait objects are made collectable with `dyn_collect!`
+pub trait Holder<'gc>: 'gc + gc_arena::collect::DynCollect<'gc> {
+    fn n(&self) -> usize;
+}
+gc_arena::collect::dyn_collect!(dyn Holder<'gc>);
+
+#[derive(Collect)]
+#[collect(no_drop)]
+pub struct Pair<A, B> {
+    pub a: A,
+    pub b: Vec<B>,
+}
+impl<'gc, A: Collect<'gc> + 'gc, B: Collect<'gc> + 'gc> Holder<'gc> for Pair<A, B> {
+    fn n(&self) -> usize {
+        self.b.len()
+    }
+}
+
 macro_rules! case {
     ($rep:expr, $name:expr, |$e:ident| $build:expr) => {{
         let name = $name;
@@ -94,6 +112,20 @@ pub fn table<'gc, L: Leaf<'gc>>(rep: &mut Rep, mc: &Mutation<'gc>) {
     case!(rep, format!("{}:Result<L,L>:Err", t), |e| Err::<L, L>(L::fresh(mc, &mut e)));
     case!(rep, format!("{}:Result<L,L>:Ok", t), |e| Ok::<L, L>(L::fresh(mc, &mut e)));
     case!(rep, format!("{}:Box", t), |e| Box::new(L::fresh(mc, &mut e)));
+    // trait objects: `dyn DynCollect` and a user trait made collectable by `dyn_collect!`; the
+    // strength of every pointer must survive the dynamic dispatch
+    case!(rep, format!("{}:Box<dyn Holder>:3", t), |e| {
+        let b: Box<dyn Holder<'gc> + 'gc> = Box::new(Pair { a: L::fresh(mc, &mut e), b: vec![L::fresh(mc, &mut e), L::fresh(mc, &mut e)] });
+        b
+    });
+    case!(rep, format!("{}:Box<dyn Holder>(dyn_collect!)", t), |e| {
+        let b: Box<dyn Holder<'gc> + 'gc> = Box::new(Pair { a: L::fresh(mc, &mut e), b: vec![L::fresh(mc, &mut e)] });
+        b
+    });
+    case!(rep, format!("{}:Rc<dyn Holder>", t), |e| {
+        let b: Rc<dyn Holder<'gc> + 'gc> = Rc::new(Pair { a: 7u8, b: vec![L::fresh(mc, &mut e), L::fresh(mc, &mut e)] });
+        b
+    });
     case!(rep, format!("{}:Rc", t), |e| Rc::new(L::fresh(mc, &mut e)));
     case!(rep, format!("{}:Arc", t), |e| Arc::new(L::fresh(mc, &mut e)));
     case!(rep, format!("{}:Rc<[L]>", t), |e| {
@@ -369,6 +401,8 @@ pub struct Survive<'gc> {
     reflock: RefLock<Vec<P<'gc>>>,
     once: OnceLock<P<'gc>>,
     swh: gc_arena::GcSliceWithHeader<'gc, P<'gc>, W<'gc>>,
+    dynbox: Box<dyn Holder<'gc> + 'gc>,
+    holder: Box<dyn Holder<'gc> + 'gc>,
     #[cfg(feature = "hashbrown")]
     hb: (hashbrown::HashMap<K<P<'gc>>, W<'gc>>, hashbrown::HashSet<K<P<'gc>>>, hashbrown::HashTable<P<'gc>>),
     #[cfg(feature = "indexmap")]
@@ -422,6 +456,8 @@ pub fn survival_round(rep: &mut Rep) {
                 let ws: Vec<W<'_>> = (0..3).map(|_| e.w(mc)).collect();
                 GcSliceWithHeaderBuilder::new(3).write_header(h).write_slice_with(mc, |i| ws[i])
             },
+            dynbox: Box::new(Pair { a: e.s(mc), b: vec![e.w(mc), e.w(mc)] }),
+            holder: Box::new(Pair { a: e.w(mc), b: vec![e.s(mc)] }),
             #[cfg(feature = "hashbrown")]
             hb: (
                 (0..3).map(|i| (K { k: i, p: e.s(mc) }, e.w(mc))).collect(),
